@@ -68,6 +68,8 @@ class Build:
             if pk in self.pkgs or (pk == 'gameboy' and '.' in self.pkgs):
                 continue
             pkdir = os.path.join(REPO, 'gameboy') if pk == 'gameboy' else os.path.join(REPO, 'gameboy', pk)
+            if any(os.path.dirname(v) == pkdir for v in (extra_overlay or {})):
+                continue  # the package's sources are replaced by a stub: its accessor file does not apply
             self.overlay[os.path.join(pkdir, 'zz_verif_export.go')] = ef
         self.overlay_file = os.path.join(workdir, 'overlay.json')
         json.dump({'Replace': self.overlay}, open(self.overlay_file, 'w'), indent=1)
@@ -90,16 +92,22 @@ class Build:
         prog = Program(self.ir_file)
         return prog
 
-    def replay(self, pk, entry, model_file, timeout=300):
+    def replay(self, pk, entry, model_file, timeout=180):
         """run the harness entry natively with the model; returns dict(failures, panic, assumeFailed, raw)"""
         env = dict(GOENV, VERIF_REPLAY=model_file, VERIF_ENTRY=entry)
         cmd = ['go', 'test', '-vet=off', '-count=1', '-overlay', self.overlay_file, '-run', 'TestVerifReplay$', '-v',
                self.pkgpath(pk)]
+        import signal
+        proc = subprocess.Popen(cmd, env=env, cwd=REPO, stdout=subprocess.PIPE, stderr=subprocess.STDOUT, text=True, start_new_session=True)
         try:
-            r = subprocess.run(cmd, env=env, cwd=REPO, capture_output=True, text=True, timeout=timeout)
+            out, _ = proc.communicate(timeout=timeout)
         except subprocess.TimeoutExpired:
+            try:
+                os.killpg(proc.pid, signal.SIGKILL)
+            except Exception:
+                pass
+            proc.communicate()
             return {'error': 'timeout'}
-        out = r.stdout + r.stderr
         m = re.search(r'VERIF-REPLAY (\{.*\})', out)
         if not m:
             if 'panic:' not in out and 'exit status 1' in out and '[build failed]' not in out:
